@@ -76,7 +76,7 @@ func obsAll(regs []*bip32.ExtendedKey) string {
 	return strings.Join(parts, ",")
 }
 
-func execXk(netsS, rootS, opsS string) string {
+func execXk(netsS, rootS, opsS string, quiet bool) string {
 	if netsS != netsString() {
 		return "bad-op" // the table is fixed per harness build
 	}
@@ -105,7 +105,10 @@ func execXk(netsS, rootS, opsS string) string {
 	default:
 		return "bad-op"
 	}
-	out := obsAll(regs)
+	out := ""
+	if !quiet {
+		out = obsAll(regs)
+	}
 	if opsS != "-" {
 		for _, op := range strings.Split(opsS, ";") {
 			if op == "" {
@@ -174,8 +177,13 @@ func execXk(netsS, rootS, opsS string) string {
 			default:
 				return "bad-op"
 			}
-			out += "/" + obsAll(regs)
+			if !quiet {
+				out += "/" + obsAll(regs)
+			}
 		}
+	}
+	if quiet { // nothing was looked at while the history ran
+		out = obsAll(regs)
 	}
 	return "ok " + out
 }
